@@ -1,4 +1,4 @@
-import sys, os, argparse, importlib
+import sys, os, argparse, importlib, re
 sys.path.insert(0, os.path.dirname(os.path.abspath(__file__)))
 import runner
 
@@ -21,9 +21,10 @@ def main():
         specs = []
         pdir = os.path.join(os.path.dirname(os.path.abspath(__file__)), 'props')
         for f in sorted(os.listdir(pdir)):
-            if f.startswith('c') and f.endswith('.py'):
+            if re.match(r'^c\d\d\.py$', f):
                 m = importlib.import_module('props.' + f[:-3])
-                specs += m.harness_specs('quick')
+                if getattr(m, 'READY', True) and hasattr(m, 'harness_specs'):
+                    specs += m.harness_specs('quick')
         uniq = {s['name']: s for s in specs}
         res = runner.harness_build_many(list(uniq.values()))
         bad = [n for n, (b, l) in res.items() if b is None]
